@@ -100,6 +100,17 @@ def section(rep, prop, tier, seed):
         raise V.ToolError(f"RdfTx.tla: the repaired model violates {r.violation}")
     states += r.distinct
     trans += r.generated
+    if tier != "quick":
+        # three sessions (two of them can be inside transactions while the third commits in between)
+        cfg3 = V.write_cfg(os.path.join(wd, "mc3.cfg"), spec="GSpec", constants={
+            "Sess": V.tla_strset(["s1", "s2", "s3"]), "Triples": "{111, 121}", "AsIs": "{}", "Depth": 5, "Preds": "{1, 2}"},
+            invariants=["Conforms"], properties=PROPS, view="MCView")
+        r3 = V.tlc(MC, cfg3, name=prop + "rdf-mc3", workers=8, timeout=3000)
+        mcs.append({"config": "RdfTx repaired mechanism, 3 sessions / 2 triples, depth 5", "expected": "holds", **r3.summary()})
+        if not r3.ok and not r3.timeout:
+            raise V.ToolError(f"RdfTx.tla: the repaired model violates {r3.violation} with three sessions")
+        states += r3.distinct
+        trans += r3.generated
     for sw in SWITCHES:
         r1 = V.tlc(MC, mc_cfg(os.path.join(wd, f"mc-{sw}.cfg"), [sw], 4, ["Conforms"]), name=prop + "rdf-sw", workers=4, timeout=300)
         r2 = V.tlc(MC, mc_cfg(os.path.join(wd, f"mc-{sw}p.cfg"), [sw], 4, [], [BREAKS[sw]]), name=prop + "rdf-swp", workers=4, timeout=300)
